@@ -54,7 +54,7 @@ class C02(PropBase):
                       "sweep_single_cuts", "sweep_pair_cuts", "client_subject", "server_subject", "four_octet_outer_length",
                       "sixty_plus_pdus_in_one_call", "two_unknown_result_codes_in_stream", "stream_over_256KiB",
                       "flag_control_with_and_without_value", "other_session_between_chunks", "duplicate_request_ids_in_stream",
-                      "five_plus_length_octets", "recursion_edge_probe")
+                      "five_plus_length_octets", "recursion_edge_probe", "thousand_pdus_in_one_call", "bind_v2_then_pipelined")
 
     # ------------------------------------------------------------------ generation of prepared session + stream
 
@@ -82,6 +82,10 @@ class C02(PropBase):
         if rng.random() < 0.012:
             npdu = rng.choice([4, 5, 6])  # few PDUs, each about 64 KiB: a stream of more than 256 KiB in one delivery
             g = Gen(rng, big=1.0, huge=0.6, customs=customs, rich=False)
+        elif rng.random() < 0.006:
+            npdu = rng.choice([1023, 1024, 1025, 1100])  # more complete messages in one receive() than any sensible per-call cap
+            big, huge = 0.0, 0.0
+            g = Gen(rng, big=0.0, huge=0.0, customs=customs, rich=False)
         elif rng.random() < 0.04:
             npdu = rng.choice([63, 64, 65, 70, 100, 130])  # many small messages completed by one receive() call
             big, huge = 0.0, 0.0
@@ -99,13 +103,20 @@ class C02(PropBase):
                                                 "result": {"code": 0, "matched_dn": "", "diag": ""}}))
             msgs = []
             for _ in range(npdu):
-                if rng.random() < 0.55:
+                if npdu >= 1000:
+                    m, a = "extended_request", {"name": "1.1"}  # as small as requests get
+                elif rng.random() < 0.55:
                     m, a = "search_request", g.a_search_request()
                 else:
                     m, a = "extended_request", g.a_extended_request()
                 mid = _do(helper, m, a)
                 msgs.append(expected_message(m, a, mid))
             lib_stream = helper.data_to_send()
+            if own_enc and not prep and rng.random() < 0.25:
+                # a foreign client that pipelines further requests right behind its bind (any protocol version)
+                bind = expected_message("bind_simple", {"dn": rng.choice(["", "cn=é"]), "password": rng.choice(["", "pw", "pä"])}, max(m["id"] for m in msgs) + 1)
+                bind["version"] = rng.choice([2, 3, 3])
+                msgs.insert(0, bind)
             if own_enc and len(msgs) >= 2 and rng.random() < 0.25:
                 # a (foreign) client that reuses the id of a request still in progress: well-formed all the same
                 j = rng.randrange(1, len(msgs))
@@ -118,12 +129,16 @@ class C02(PropBase):
             _register(helper, customs)
             _register(shadow, customs)
             reqs = []
-            if rng.random() < 0.25:
+            if rng.random() < 0.25 and npdu < 1000:
                 m, a = g.a_bind_any()
                 mid = _do(shadow, m, a)
                 prep.append({"kind": "call", "m": m, "a": a})
                 reqs.append((mid, "BindRequest"))
             else:
+                if npdu >= 1000:
+                    mid = _do(shadow, "search_request", {})
+                    prep.append({"kind": "call", "m": "search_request", "a": {}})
+                    reqs.append((mid, "SearchRequest"))
                 for _ in range(rng.choice([1, 2, 3, 4])):
                     if rng.random() < 0.6:
                         m, a = "search_request", g.a_search_request()
@@ -149,7 +164,9 @@ class C02(PropBase):
                 else:
                     x = rng.random()
                     remaining_slots = npdu - len(msgs)
-                    if x < 0.5 or remaining_slots > len(live) + 1:
+                    if npdu >= 1000 and remaining_slots > len(live) + 1:
+                        m, a = "search_result_entry", {"id": mid, "object_name": "", "attributes": []}
+                    elif x < 0.5 or remaining_slots > len(live) + 1:
                         m, a = ("search_result_entry", g.a_entry(mid)) if rng.random() < 0.7 else ("search_result_reference", g.a_reference(mid))
                     else:
                         m, a = "search_result_done", g.a_done(mid)
@@ -223,6 +240,8 @@ class C02(PropBase):
         elif tw_vals is not None and tw_vals != exp:
             st.flags["codec_mismatch"] = 1  # every delivery decodes something else than was sent: C01/C04's matter, chunking still compared
         x["twin"] = tw_vals if tw_vals is not None else u_vals
+        if x.get("defer"):
+            x["twin"] = u_vals  # the single delivery is the deviating one: the per-PDU delivery serves as reference
         if x["twin"] is None or len(x["twin"]) != len(units):
             x["discard"] = "reference delivery returned %s messages for %d PDUs" % (None if x["twin"] is None else len(x["twin"]), len(units))
             return st
@@ -238,6 +257,10 @@ class C02(PropBase):
             st.hit("four_octet_outer_length")
         if len(units) >= 60:
             st.hit("sixty_plus_pdus_in_one_call")
+        if len(units) > 1024:
+            st.hit("thousand_pdus_in_one_call")
+        if init["expected"] and init["expected"][0].get("t") == "BindRequest" and init["expected"][0].get("version") == 2 and len(units) > 1:
+            st.hit("bind_v2_then_pipelined")
         if len(stream) > 262144:
             st.hit("stream_over_256KiB")
         ids = [m["id"] for m in init["expected"]]
@@ -415,11 +438,11 @@ class C02(PropBase):
 
     def finish(self, st):
         x = st.x
+        if x.get("defer"):
+            raise Violation(P, x["defer"][0], x["defer"][1])
         if x["discard"]:
             st.flags["discarded"] = 1
             return
-        if x.get("defer"):
-            raise Violation(P, x["defer"][0], x["defer"][1])
         w = st.w
         S, T = w.s["S"], w.s["T"]
         if S.inbox:
@@ -428,6 +451,10 @@ class C02(PropBase):
         if got != x["twin"]:
             raise Violation(P, "overall-mismatch", "all %d bytes delivered in %d chunks: %d messages returned, single delivery returns %d" % (
                 len(x["stream"]), x["chunks"], len(got), len(x["twin"])))
+        for k, (lst, snap) in enumerate(S.returned_lists):
+            if len(lst) != len(snap) or any(a is not b for a, b in zip(lst, snap)):
+                raise Violation(P, "returned-value-mutated", "the list returned by receive() call #%d held %d messages when it was returned and "
+                                "holds %d now (a later receive changed a value the caller already had)" % (k, len(snap), len(lst)))
         now = [_full(m) for m in S.returned_objs]
         if now != x["snap_full"]:
             i = next(i for i in range(len(now)) if now[i] != x["snap_full"][i])
@@ -461,6 +488,8 @@ class C02(PropBase):
         limit = max(40, min(300 if self.tier == "quick" else 5000, budget // max(1, n)))
         if len(x["units"]) >= 30:
             limit = min(limit, 60 if self.tier == "quick" else 600)  # parse cost is per message here, not per byte
+        if len(x["units"]) >= 1000:
+            limit = 6 if self.tier == "quick" else 40
         if n < 2:
             return
         offs = list(range(1, n))
@@ -472,6 +501,8 @@ class C02(PropBase):
                     if a + k < n:
                         hdr.add(a + k)
                 hdr.add(b - 1)
+            if len(hdr) > limit:
+                hdr = set(rr.sample(sorted(hdr), limit))
             offs = sorted(hdr | set(rr.sample(offs, limit)))
         for k in offs:
             self._cut_run(st, [k], T, role)
@@ -479,6 +510,8 @@ class C02(PropBase):
         pairs = max(5, min(30 if self.tier == "quick" else 400, budget // max(1, 3 * n)))
         if len(x["units"]) >= 30:
             pairs = min(pairs, 10 if self.tier == "quick" else 100)
+        if len(x["units"]) >= 1000:
+            pairs = 2
         for _ in range(pairs):
             if n < 3:
                 break
